@@ -7,6 +7,9 @@ pub mod pywheel;
 pub mod alloc;
 pub mod trees;
 pub mod classic;
+pub mod backref;
+pub mod run;
+pub mod progs;
 
 /// One request line `<KIND> <id> <args…>` ↦ reply body (without the id).
 pub fn run_request(kind: &str, args: &[&str]) -> String {
@@ -19,8 +22,14 @@ pub fn run_request(kind: &str, args: &[&str]) -> String {
         "ALLOC" => alloc::run(args),
         "SER" if args[0] == "classic" => classic::run_ser(args),
         "DE" if ["classic", "lent", "canon"].contains(&args[0]) => classic::run_de(args),
+        "SER" if args[0] == "br" => backref::run_ser(args),
+        "DE" if ["br", "brold", "len"].contains(&args[0]) => backref::run_de(args),
+        "PATH" => backref::run_path(args),
         "LEN" => classic::run_len(args),
         "PFX" => classic::run_pfx(args),
+        "RUN" => run::run_run(args),
+        "OP" => run::run_op(args),
+        "UNK" => run::run_unknown(args),
         k if k.starts_with("PY") => pywheel::run(k, args),
         _ => "bad-request".to_string(),
     });
@@ -38,6 +47,11 @@ pub fn gen_stream(name: &str, seed: u64, n: usize, tier: &str) -> Vec<String> {
         "hash" | "thash" | "thash_stream" => treehash::generate(name, &mut rng, n, tier),
         "alloc" | "alloc_limits" | "alloc_small" | "alloc_ints" => alloc::generate(name, &mut rng, n, tier),
         "classic" => classic::generate(&mut rng, n, tier),
+        s if s.starts_with("backref_") => backref::generate(s, &mut rng, n, tier),
+        "run" => progs::generate_run(&mut rng, n, tier, &["chia"], "any"),
+        "run_default" => progs::generate_run(&mut rng, n, tier, &["chia"], "default"),
+        "op" => progs::generate_op(&mut rng, n, tier, None),
+        "unknown" => progs::generate_unknown(&mut rng, n, tier),
         s if s.starts_with("py") => pywheel::generate(s, &mut rng, n, tier),
         _ => panic!("unknown stream {name}"),
     }
@@ -51,6 +65,7 @@ pub fn run_oracle(name: &str, seed: u64, n: usize, tier: &str) -> util::OracleRe
         "thash_agree" | "hash_vectors" => treehash::oracle(name, &mut rng, n, tier),
         "alloc_accounting" | "alloc_limits" | "alloc_nodes" => alloc::oracle(name, &mut rng, n, tier),
         "classic" => classic::oracle(&mut rng, n, tier),
+        s if s.starts_with("backref_") => backref::oracle(s, &mut rng, n, tier),
         "classic_big" => classic::oracle_big(&mut rng, n, tier),
         _ => panic!("unknown oracle {name}"),
     }
